@@ -10,9 +10,22 @@
 open Model
 open Proto
 
+(* conversion caches (pure memoisation of Proto's converters) *)
 let ztab = Array.init 256 z_of_int
+let zrev : (z, int) Hashtbl.t = Hashtbl.create 512
+let () = Array.iteri (fun i z -> Hashtbl.replace zrev z i) ztab
 let zbytes (s : string) : z list = List.map (fun i -> ztab.(i)) (bytes_of_hex s)
-let hexbytes (l : z list) : string = hex_of_bytes (List.map int_of_z l)
+let byte_of_z (z : z) : int = match Hashtbl.find_opt zrev z with Some i -> i | None -> int_of_z z
+let hexbytes (l : z list) : string =
+  if l = [] then "-" else begin
+    let b = Buffer.create 64 in
+    List.iter (fun z -> Buffer.add_string b (Printf.sprintf "%02x" (byte_of_z z))) l;
+    Buffer.contents b end
+let zmemo : (string, z) Hashtbl.t = Hashtbl.create 4096
+let z_of_hex (s : string) : z =
+  match Hashtbl.find_opt zmemo s with
+  | Some z -> z
+  | None -> let z = Proto.z_of_hex s in (if Hashtbl.length zmemo < 200000 then Hashtbl.replace zmemo s z); z
 
 (* ---- parsing the comma separated token form ---- *)
 let toks = ref [||]
